@@ -62,13 +62,11 @@ theorem merge_cases_table_rule :
         decideG t x y = "coalesce") := by
   decide +kernel
 
-/-- (iii) the chains are not empty, end in a catch-all arm, no arm is shadowed by an earlier one, and
-    today they are literally the model's table -/
+/-- (iii) the chains are not empty, end in a catch-all arm, and no arm is shadowed by an earlier one
+    (every arm is the first match for some pair of kinds) -/
 theorem nonvacuous_merge_cases :
-    (Generated.mergeContainersCases.map (fun c => (c.left, c.right, c.action))).Perm
-      (mergeCasesNamed.map (fun c => (c.left, c.right, c.action))) ∧
     ∀ t ∈ [Generated.mergeContainersCases, Generated.mergeListsMeldCases],
-      t.length = 3 ∧ t.getLast? = some ⟨"any", "any", "coalesce"⟩ ∧
+      t ≠ [] ∧ t.getLast? = some ⟨"any", "any", "coalesce"⟩ ∧
       (t.map (fun c => (c.left, c.right))).Nodup ∧
       (∀ c ∈ t, ∃ x ∈ allShapes, ∃ y ∈ allShapes, decideG t x y = c.action) := by
   decide +kernel
